@@ -279,6 +279,8 @@ class Goebner:
         ret = []
         if neg and agg.right_guard:  # don't create a disjunction in case of 2 boundaries negated
             return None
+        if agg.function == AggregateFunction.Count:  # created after normalization, the first term is not a weight
+            return None
         nonnegative = None
         if agg.ast_type == ASTType.BodyAggregate and agg.function == AggregateFunction.SumPlus:
             nonnegative = True
